@@ -53,6 +53,8 @@ def check_case(res, c, tier):
     S2 = snapshot.snap_project(p2)
     d = snapshot.diff(build.norm(S1, "before"), build.norm(S2, "after"))
     res.count("roundtrips_compared")
+    if c.index % 4 == 0 and len(raw) < 300000:
+        FRESH.append((raw, build.norm(S1, "before"), desc))
     for path, a, b in d[:4]:
         res.violation(f"C01:diff:{snapshot.field_key(path)}", f"{path}: before save {a}, after load {b}", desc)
     # second round on the same object: it has been saved once; edit it in place through routes that bypass any change
@@ -103,11 +105,17 @@ def run_shard(spec_, res):
             res.sample({"index": i, "modules": [None if m is None else m["type"] for m in c.snap["modules"]],
                         "patterns": [None if q is None else q["kind"] for q in c.snap["patterns"]],
                         "api_history_head": [list(map(str, h)) for h in c.history[:6]]})
+    # the same files once more, loaded by an interpreter that has done nothing else
+    workload.fresh_process_reload(res, PROPERTY, FRESH)
+    del FRESH[:]
     for name, msg in monitors.take_failures():
         res.violation(f"C01:ambient:{name}", msg, {"monitor": name})
     res.count("save_is_pure_evaluations", monitors.COUNTERS.get("save_is_pure.evaluations", 0))
     res.count("links_consistent_evaluations", monitors.COUNTERS.get("links_consistent.evaluations", 0))
     res.count("index_coherent_evaluations", monitors.COUNTERS.get("index_coherent.evaluations", 0))
+
+
+FRESH = []
 
 
 def _snap_any(obj):
